@@ -30,6 +30,11 @@ def run(repo, rep, tier):
     r2 = rep.rule("R11.2", "__reduce__ covers None/str/function and raises otherwise; deserializers restore every attribute", floor=6)
     r3 = rep.rule("R11.3", "self.x reads resolve in the pickling helpers", floor=20)
     r4 = rep.rule("R11.4", "Select.__getattr__ cannot recurse during unpickling", floor=2)
+    # an unpickled Count carries a COPY of `identity` as its transform, so `transform is identity` is false for the clone: it takes
+    # the general branch of Bin/CentrallyBin/Count._numpy where the original takes the fast one.  Both must do what fill does.
+    rep.borrow(repo, "C03", {"R3.1": ("R11.5", "the branches of _numpy selected by `transform is identity` (original: fast path, unpickled clone: general path) have the same effect", 300),
+                             "R3.7": ("R11.6", "Count._numpy adds the same amount on the identity branch (original) and on the transform branch (unpickled clone)", 8)},
+               keep=lambda f: any(f.construct.endswith(x) for x in ("::Bin._numpy", "::CentrallyBin._numpy", "::Count._numpy")))
     # ---------------- R11.1
     spec = repo.own_method(fac, "specialize")
     gs = repo.own_method(cont, "__getstate__")
@@ -172,6 +177,34 @@ def run(repo, rep, tier):
     r2.ob(tail_raises and no_fall, "__reduce__ raises for anything else")
     if not (tail_raises and no_fall):
         rep.finding("R11.2", red, red.node, "__reduce__ can fall through without raising for an unsupported expr", stmt="__reduce__ tail")
+    # the globals a function quantity refers to travel with it: the names of its code object are filtered by MEMBERSHIP in its
+    # globals only - a test on the value (truthiness, `.get(n)`, `is not None`) drops globals that are 0 / False / None / empty
+    sel_sites = 0
+    for n in walk_local_stmt(red.node):
+        conds, var = None, None
+        if isinstance(n, ast.DictComp) and len(n.generators) == 1 and "co_names" in ast.unparse(n.generators[0].iter):
+            conds, var = list(n.generators[0].ifs), n.generators[0].target
+        elif isinstance(n, ast.For) and "co_names" in ast.unparse(n.iter):
+            conds = [st.test for st in n.body if isinstance(st, ast.If) and any(
+                isinstance(t, ast.Subscript) and isinstance(t.ctx, ast.Store) for x in ast.walk(st) for t in ([x] if isinstance(x, ast.Subscript) else []))]
+            var = n.target
+        if conds is None or not isinstance(var, ast.Name):
+            continue
+        sel_sites += 1
+        flat = []
+        for c0 in conds:
+            flat += c0.values if isinstance(c0, ast.BoolOp) and isinstance(c0.op, ast.And) else [c0]
+        for c0 in flat:
+            ok = isinstance(c0, ast.Compare) and len(c0.ops) == 1 and isinstance(c0.ops[0], ast.In) and isinstance(c0.left, ast.Name) and c0.left.id == var.id
+            r2.ob(ok, f"__reduce__: captured globals selected by `{ast.unparse(c0)[:50]}`")
+            if not ok:
+                rep.finding("R11.2", red, c0, f"the globals shipped with a function quantity are selected by `{ast.unparse(c0)}`, not by membership "
+                            f"(`{var.id} in <globals>`): a global the function reads whose value is falsy or fails the test (0, 0.0, False, None, '') "
+                            f"is left out of the pickle and the clone raises NameError on its first fill", stmt="captured globals: value test")
+    if kinds.get("function") and sel_sites == 0:
+        r2.ob(False)
+        rep.finding("R11.2", red, red.node, "__reduce__ handles function quantities but no selection of the globals named by `__code__.co_names` was found: "
+                    "the rebuilt function cannot see the module-level names it refers to", stmt="captured globals: not collected")
     init = repo.own_method(ufc, "__init__")
     init_attrs = {t.attr for n in walk_local_stmt(init.node) if isinstance(n, ast.Assign) for t in n.targets
                   if isinstance(t, ast.Attribute) and isinstance(t.value, ast.Name) and t.value.id == init.params[0]}
